@@ -94,6 +94,15 @@ struct SharedKeys {
 		truth[5] = key_gen_ec("P-521");
 		alg[5] = JWT_ALG_ES512;
 		json_t *dpriv = json_object(), *dpub = json_object(), *apriv = json_array(), *apub = json_array();
+		// eight keys nobody asks for in front: the keys in use sit at positions 9 to 14 of the shared rings
+		for (int i = 0; i < 8; i++) {
+			KeyRef f = key_gen_oct(r, 32);
+			JwkOpts o;
+			o.has_kid = true;
+			o.kid = strf("f%d", i);
+			json_array_append_new(apriv, jwk_export_json(*f, o));
+			json_array_append_new(apub, jwk_export_json(*f, o));
+		}
 		for (int i = 0; i < 6; i++) {
 			JwkOpts o;
 			o.priv = true;
@@ -474,6 +483,24 @@ static void threads_exec(Ctx &ctx)
 			ctx.violation("C18", "op-not-executed", s.op, strf("op%zu was not executed in the threaded run", i));
 			continue;
 		}
+		// C05 and C12 quantify over tokens and keys, not over who else is running: what the library returns while other
+		// caller threads are inside it is judged by the same reference as anywhere else
+		if (thr.out[i].done && s.op == "GEN" && thr.out[i].ret == 0) {
+			TokenParts tpx;
+			token_split(thr.out[i].token, tpx);
+			if (a.fam != FAM_NONE && !ref_sig_valid(*K.truth[key], a, tpx.signing_input, tpx.seg[2])) {
+				ctx.violation("C05", "generated-signature-invalid", strf("%s:%s:under-threads", a.name, prov == PROV_GNUTLS ? "gnutls" : "openssl"),
+					      strf("op%zu: token generated while other threads were inside the library does not carry a valid signature per the reference: %s", i, show(thr.out[i].token, 200).c_str()));
+				ctx.violation("C12", "signature-not-accepted-by-other-provider", strf("%s:%s:under-threads", a.name, prov == PROV_GNUTLS ? "gnutls" : "openssl"),
+					      strf("op%zu: token generated while other threads were inside the library is rejected by the OpenSSL reference verifier: %s", i, show(thr.out[i].token, 200).c_str()));
+			}
+			if ((a.fam == FAM_HS || a.fam == FAM_RS || a.fam == FAM_ED) && seq.out[i].ret == 0 && seq.out[i].token != thr.out[i].token)
+				ctx.violation("C12", "deterministic-token-differs", strf("%s:under-threads", a.name),
+					      strf("op%zu: %s token differs between the interleaved and the one-after-another execution: %s vs %s", i, a.name, show(thr.out[i].token, 160).c_str(), show(seq.out[i].token, 160).c_str()));
+		}
+		if (thr.out[i].done && seq.out[i].ret == 0 && thr.out[i].ret != 0)
+			ctx.violation("C05", s.op == "GEN" ? "generate-failed" : "valid-token-rejected", strf("%s:under-threads", a.name),
+				      strf("op%zu (%s, %s) succeeds when the threads' calls are made one after another and fails (%d) under the interleaving", i, s.op.c_str(), a.name, thr.out[i].ret));
 		if (seq.out[i].ret != thr.out[i].ret)
 			ctx.violation("C18", "result-differs", strf("%s:%s", s.op.c_str(), a.name),
 				      strf("op%zu (%s, thread %lld, %s) returned %d when the threads' calls are made one after another and %d under the interleaving", i, s.op.c_str(), (long long)s.I("thread"),
